@@ -361,6 +361,18 @@ def fill : List Bytes → List Bytes → Bytes
 def formatPost (template name date body : Bytes) : Bytes :=
   nl2cr (fill (splitVerbs (template ++ [13])) [name, date, body])
 
+theorem fill_four (a b c d n t y : Bytes) :
+    fill [a, b, c, d] [n, t, y] = a ++ n ++ (b ++ t ++ (c ++ y ++ d)) := by
+  simp [fill]
+
+/-- `HandleTranOldPostNews` for a poster allowed to post: build the text, `PostMessageBoard`, then `SendAll`
+    (one transaction 102 carrying the text per connected client, `clients` = `ClientMgr.List()`).
+    Result: new store, notifications (addressee, text). -/
+def handlePost (template : Bytes) (clients : List Nat) (name date body : Bytes) (s : Store) :
+    Store × List (Nat × Bytes) :=
+  ((execOp s (.post (formatPost template name date body))).1,
+   clients.map fun c => (c, formatPost template name date body))
+
 def ascii (s : String) : Bytes := s.toList.map fun c => UInt8.ofNat c.toNat
 
 theorem nl2cr_no_nl (b : Bytes) : (10 : UInt8) ∉ nl2cr b := by
